@@ -477,4 +477,7 @@ def run(cx, tier='quick'):
     rep.not_decided += ['lawfulness of user-supplied comparison methods']
     from .binders import check_binder_injectivity
     check_binder_injectivity(cx, rep, ['::ord::', '::partial_ord::'])
+    from .c13 import include_own_parsers as _iop
+    from ..facts import Facts as _Fp
+    _iop(cx, _Fp(cx), rep, ['::ord::', '::partial_ord::'])
     return rep
